@@ -269,7 +269,12 @@ Definition read_slot (p : Z) : M elem := fun s w => (Ok (items s p), s, w).
 Definition write_slot (p : Z) (e : elem) : M unit :=
   fun s w => (Ok tt, b_items s (s_write (items s) p e), w).
 
-Definition zseq (a : Z) (n : nat) : list Z := map (fun i => a + Z.of_nat i) (seq 0 n).
+(* a, a+1, ..., a+n-1 (linear time when run; [zseq_map_seq] in proofs/AbsLemmas.v is the closed form) *)
+Fixpoint zseq (a : Z) (n : nat) : list Z :=
+  match n with
+  | O => []
+  | S n' => a :: zseq (a + 1) n'
+  end.
 
 Definition sl_elems (f : store) (sl : slice) : list elem :=
   map f (zseq (soff sl) (Z.to_nat (slen sl))).
